@@ -35,7 +35,7 @@ impl FileModel {
         let entry = Entry::own(fx.format);
         // one clean pass: open, names, tables, default ranges
         let ops = vec![Op::LoadTables, Op::TableNames];
-        let ex = execute(image.clone(), entry, Delivery::perfect(), &ops, limits, &ExecOpts { capture: false, stop_on_panic: true, probes: &[] });
+        let ex = execute(image.clone(), entry, Delivery::perfect(), &ops, limits, &ExecOpts { capture: false, stop_on_panic: true, probes: &[], record_kinds: false });
         let sheet_names = ex.sheet_names.clone();
         let mut m = FileModel {
             name: fx.name.clone(),
@@ -62,7 +62,7 @@ impl FileModel {
                     Delivery::perfect(),
                     &[Op::Range(SheetArg::Lit(n.clone()))],
                     limits,
-                    &ExecOpts { capture: true, stop_on_panic: true, probes: &[] },
+                    &ExecOpts { capture: true, stop_on_panic: true, probes: &[], record_kinds: false },
                 );
                 total_cpu += ex.cpu_ns;
                 let r = match ex.ops.into_iter().next() {
@@ -140,7 +140,7 @@ impl FileModel {
             Delivery::perfect(),
             &ops,
             limits,
-            &ExecOpts { capture: false, stop_on_panic: true, probes: &[] },
+            &ExecOpts { capture: false, stop_on_panic: true, probes: &[], record_kinds: false },
         );
         let v = ex.ops.into_iter().last().map(|r| r.worksheets).unwrap_or_default();
         self.ws_memo.insert(header, v.clone());
@@ -173,7 +173,7 @@ impl FileModel {
             Delivery::perfect(),
             &ops,
             limits,
-            &ExecOpts { capture: false, stop_on_panic: true, probes: &[] },
+            &ExecOpts { capture: false, stop_on_panic: true, probes: &[], record_kinds: false },
         );
         let o = match ex.open {
             Outcome::Ok(_) => {
